@@ -56,9 +56,12 @@ const (
 	// second phases (only ever pending when the first phase could not complete)
 	KRLockQueued // reader queued behind an announced writer
 	KWDrain      // writer announced, waiting for active readers to leave
+	// KAfterUnlock is a point right AFTER a write-unlock (Mutex.Unlock, RWMutex.Unlock): code that
+	// releases a lock and then goes on modifying what the lock protected is preemptible there.
+	KAfterUnlock
 )
 
-var kindNames = [...]string{"none", "Lock", "Unlock", "RLock", "RUnlock", "WLock", "WUnlock", "TryLock", "TryRLock", "TryWLock", "WgAdd", "WgWait", "yield", "start", "exit", "RLock(queued)", "WLock(drain)"}
+var kindNames = [...]string{"none", "Lock", "Unlock", "RLock", "RUnlock", "WLock", "WUnlock", "TryLock", "TryRLock", "TryWLock", "WgAdd", "WgWait", "yield", "start", "exit", "RLock(queued)", "WLock(drain)", "after-Unlock"}
 
 func (k Kind) String() string {
 	if int(k) < len(kindNames) {
@@ -154,6 +157,9 @@ func (m *Mutex) Unlock() {
 	if s := cur; s != nil {
 		m.m.Class = ClassMutex
 		s.Op(KUnlock, &m.m, 0)
+		m.mu.Unlock()
+		s.Op(KAfterUnlock, &m.m, 0)
+		return
 	}
 	m.mu.Unlock()
 }
@@ -197,6 +203,9 @@ func (rw *RWMutex) Unlock() {
 	if s := cur; s != nil {
 		rw.m.Class = ClassRWMutex
 		s.Op(KWUnlock, &rw.m, 0)
+		rw.mu.Unlock()
+		s.Op(KAfterUnlock, &rw.m, 0)
+		return
 	}
 	rw.mu.Unlock()
 }
